@@ -14,6 +14,12 @@ def check(inp):
         return "length out of range: %r -> %r" % (t, r)
     if not any(c.isupper() for c in t) and r != t:
         return "a name without capitals was changed: %r -> %r" % (t, r)
+    want = ""
+    for i, c in enumerate(t):
+        sep = c.isupper() and i >= 2 and (t[i - 1].islower() or (i + 1 < len(t) and t[i + 1].islower()))
+        want += ("_" + c.lower()) if sep else c.lower()
+    if r != want:
+        return "documented mapping changed: %r -> %r, documented form is %r" % (t, r, want)
     return None
 
 
